@@ -13,6 +13,10 @@ Definition term_sizes_ok (calls : list acall) : bool :=
 Definition writes_of (calls : list acall) : list acall := filter acall_is_write calls.
 Definition fleet_calls (calls : list acall) : list acall :=
   filter (fun c => match c with ACreateFleet _ _ _ _ _ _ _ _ => true | _ => false end) calls.
+(* fleet requests the cloud ACCEPTED: at most one per scale-up (a refused request acquires nothing; asking again is not what
+   "all-or-nothing" forbids) *)
+Definition accepted_fleet_calls (calls : list acall) : list acall :=
+  filter (fun c => match c with ACreateFleet _ _ _ _ _ _ _ true => true | _ => false end) calls.
 Definition attach_failed (calls : list acall) : bool :=
   existsb (fun c => match c with AAttach _ _ false => true | _ => false end) calls.
 
@@ -48,7 +52,7 @@ Definition check_C17 (a : asg) (d : Z) (o : aorc) (calls : list acall) (cls : Z)
     end
   else
     forallb (fleet_call_ok a d) calls
-    && Nat.leb (length (fleet_calls calls)) 1
+    && Nat.leb (length (accepted_fleet_calls calls)) 1
     && attach_sizes_ok calls
     && forallb (fun c => match c with ASetDesired _ _ _ _ | ATermInAsg _ _ _ => false | _ => true end) calls
     && (if cls =? 0 then same_multiset (attached_ok calls) (acquired o calls) else true).
